@@ -9,9 +9,13 @@ EXTENDS Integers, Json, TLC
 Sources == {"D", "C", "DC"}
 Layouts == {<<1, 1, 1>>, <<2, 2, 2>>, <<3, 2, 1>>, <<1, 1, 4>>}
 Pers == {<<0, 0, 0>>, <<1, 1, 1>>, <<1, 0, 1>>}
-Configs == {[src |-> s, diffuse |-> d, n |-> l, per |-> p, copy |-> c, nthr |-> t, np |-> np] :
+\* nsrc: number of discrete sources (3: unequal luminosities 1:2:5 in different subgrids, so that the per-source
+\* quotas have remainders); only meaningful when the discrete source is on
+Configs == {[src |-> s, diffuse |-> d, n |-> l, per |-> p, copy |-> c, nthr |-> t, np |-> np, nsrc |-> ns] :
               s \in Sources, d \in {0, 1}, l \in Layouts, p \in Pers, c \in {0, 1, 2},
-              t \in {1, 2, 4, 8}, np \in {10000, 7777, 999, 20001}}
+              t \in {1, 2, 4, 8}, np \in {10000, 7777, 999, 20001}, ns \in {1, 3}} \ 
+           {cf \in [src : {"C"}, diffuse : {0, 1}, n : Layouts, per : Pers, copy : {0, 1, 2}, nthr : {1, 2, 4, 8},
+                    np : {10000, 7777, 999, 20001}, nsrc : {3}] : TRUE}
 ASSUME PrintT(<<"CONFIGS", ToJson(Configs)>>)
 VARIABLE x
 Init == x = 0
